@@ -184,7 +184,8 @@ C18 = Prop(
          "of depth <=3 over 31 operations (assign value by const&/&&, copy-assign, copy-construct, assign empty, read); "
          "seeded random histories up to 80 / 40 operations. Compared: which object every cell owns, the destructor log "
          "(object, static type of the destructor that ran) after every step and at the end, live-instance counts, "
-         "storage addresses of engaged optionals. Non-trivial: at least 2 operations. Distinct = distinct case line.",
+         "storage addresses of engaged optionals. Non-trivial: at least 2 operations. Distinct = distinct case line. " \
+                "optional: the histories also run over optional<bool> and optional<T> for a T with a catch-all converting constructor; copy construction from non-const and const lvalues compared.",
     harness=HARNESS, search=lambda dis, rng: gen_c18("thorough", rng)[:150000],
     theorem_hint="NitroVerif.Props.C18.{history_inv,exactly_once,never_twice,moved_from_empty,ohistory_inv,independent,"
                  "target_reads,no_alias}",
@@ -205,7 +206,8 @@ C19 = Prop(
          "over open / failed open / load / failed lookup / copy / destroy / call on up to 3 libraries (distinct file "
          "copies so that every dlopen has its own handle), plus seeded random histories up to 40 operations; dlopen and "
          "dlclose are counted per handle through linker --wrap; symbols are called after their dl object is gone, under "
-         "ASan. Non-trivial: a set variable, or at least 2 loader operations. Distinct = distinct case line.",
+         "ASan. Non-trivial: a set variable, or at least 2 loader operations. Distinct = distinct case line. " \
+                "Every caught dl exception is kept (copied) and its diagnostic re-read after every later step: it has to name what was missing and to stay what it was at catch time.",
     harness=HARNESS, search=lambda dis, rng: gen_c19("thorough", rng)[:150000],
     theorem_hint="NitroVerif.Props.C19.{get_set,get_unset,get_empty_is_not_unset,default_only_if_unset,dhistory_inv,"
                  "close_discipline,failed_ops_neutral}",
